@@ -473,7 +473,7 @@ Qed.
 Lemma E_nth_window_list : forall (phi : nat -> Z) p J,
   let L := (1 :: map phi (seq 0 p) ++ [1])%Z in
   ((J <= 0)%Z -> nthZ L J = 1%Z) /\
-  (J = Z.of_nat p + 1 -> nthZ L J = 1%Z) /\
+  (J = (Z.of_nat p + 1)%Z -> nthZ L J = 1%Z) /\
   ((1 <= J)%Z -> (J <= Z.of_nat p)%Z -> nthZ L J = phi (Z.to_nat J - 1)%nat).
 Proof.
   intros phi p J L. subst L. unfold nthZ. split; [|split].
@@ -481,7 +481,7 @@ Proof.
   - intros ->. replace (Z.to_nat (Z.of_nat p + 1)) with (S p) by lia. cbn [nth].
     rewrite app_nth2 by (rewrite map_length, seq_length; lia).
     rewrite map_length, seq_length, Nat.sub_diag. reflexivity.
-  - intros H1 H2. replace (Z.to_nat J) with (S (Z.to_nat J - 1)) by lia. cbn [nth].
+  - intros H1 H2. destruct (Z.to_nat J) as [|q] eqn:Eq; [lia|]. cbn [nth]. rewrite E_S_sub1.
     rewrite app_nth1 by (rewrite map_length, seq_length; lia).
     apply E_nth_map_seq. lia.
 Qed.
@@ -505,9 +505,10 @@ Proof.
   cbv zeta in *. split; [|split].
   - intros H. split; [now apply A0|now apply B0].
   - intros H. split; [apply A1|apply B1]; lia.
-  - intros H1 H2. rewrite A2, B2 by lia.
-    replace (1 + Z.of_nat (Z.to_nat J - 1))%Z with J by lia.
-    subst F e. cbv beta. rewrite !Y_prepare by (try assumption; lia). split; reflexivity.
+  - intros H1 H2.
+    assert (EJ : (1 + Z.of_nat (Z.to_nat J - 1))%Z = J) by lia.
+    split; (etransitivity; [first [apply A2|apply B2]; lia|]); cbv beta; rewrite EJ;
+      subst F e; cbv beta; rewrite !Y_prepare by (try assumption; lia); reflexivity.
 Qed.
 
 Lemma windows_local : forall gpow x y y' n aa J, (2 <= n)%nat -> (2 <= length x)%nat ->
@@ -586,3 +587,194 @@ Proof.
   rewrite !shape_linear_shl, !shape_exp_she, !avg_yadd, !border_yadd by assumption.
   split; [apply shl_add|apply she_add].
 Qed.
+
+(** ---------- 12. monotonicity of the fixed-window strategies ---------- *)
+
+Lemma avg_mono : forall x y y' K, (forall j, nthq j y <= nthq j y') -> avg x y K <= avg x y' K.
+Proof.
+  intros x y y' K H. unfold avg.
+  destruct (K <=? 0)%Z; [apply H|]. destruct (Z.of_nat (m x) - 1 <? K)%Z; apply H.
+Qed.
+
+Lemma mono_mul : forall u v u' v' r, 0 <= r -> r <= 1 -> u <= u' -> v <= v' ->
+  u + (v - u) * r <= u' + (v' - u') * r.
+Proof. intros u v u' v' r H0 H1 Hu Hv. qcnra. Qed.
+
+Lemma mono_div : forall u v u' v' p q, 0 <= p / q -> p / q <= 1 -> u <= u' -> v <= v' ->
+  u + (v - u) * p / q <= u' + (v' - u') * p / q.
+Proof.
+  intros u v u' v' p q H0 H1 Hu Hv. rewrite !E_muldiv_assoc. now apply mono_mul.
+Qed.
+
+Lemma mono_divZ : forall u v u' v' p q, (0 <= p)%Z -> (p <= q)%Z -> u <= u' -> v <= v' ->
+  u + (v - u) * Qc_of_Z p / Qc_of_Z q <= u' + (v' - u') * Qc_of_Z p / Qc_of_Z q.
+Proof.
+  intros u v u' v' p q H0 H1 Hu Hv. destruct (E_ratioZ01 p q H0 H1) as [R0 R1]. now apply mono_div.
+Qed.
+
+Lemma E_dK_nonneg : forall x K, ssorted x -> (2 <= length x)%nat -> 0 <= dK x K.
+Proof.
+  intros x K Hs Hl. unfold dK, m.
+  assert (Hle : forall i j, (i <= j)%nat -> (j < length x)%nat -> 0 <= nthq j x - nthq i x).
+  { intros i j Hij Hj. pose proof (ssorted_nth_le x i j Hs Hij Hj). qclra. }
+  destruct (K <=? 0)%Z eqn:E1; [apply Hle; lia|].
+  destruct (Z.of_nat (length x) - 1 <? K)%Z eqn:E2; [apply Hle; lia|].
+  apply Z.leb_gt in E1. apply Z.ltb_ge in E2. apply Hle; lia.
+Qed.
+
+Lemma rat_range : forall x n K ar al, ssorted x -> (2 <= length x)%nat -> (1 <= n)%nat ->
+  (0 <= ar)%Z -> (0 <= al)%Z -> 0 <= rat x n K ar al /\ rat x n K ar al <= 1.
+Proof.
+  intros x n K ar al Hs Hl Hn Har Hal. unfold rat. cbv zeta.
+  assert (Hqn : 0 < qn n) by (apply Qc_of_nat_pos; lia).
+  assert (Hiq : 0 <= / qn n) by (apply E_inv_facts; qclra).
+  pose proof (E_dK_nonneg x (K - 1) Hs Hl) as Hd1. pose proof (E_dK_nonneg x K Hs Hl) as Hd2.
+  pose proof (E_Qc_of_Z_nonneg ar Har) as Hqa. pose proof (E_Qc_of_Z_nonneg al Hal) as Hql.
+  set (d1 := dK x (K - 1)) in *. set (d2 := dK x K) in *. clearbody d1 d2.
+  set (qa := Qc_of_Z ar) in *. set (ql := Qc_of_Z al) in *. clearbody qa ql.
+  assert (Hwl : 0 <= qa * d1 / qn n).
+  { unfold Qcdiv. set (iq := / qn n) in *. clearbody iq.
+    assert (H1 : 0 <= qa * d1) by qcnra. set (u := qa * d1) in *. clearbody u. qcnra. }
+  assert (Hwr : 0 <= ql * d2 / qn n).
+  { unfold Qcdiv. set (iq := / qn n) in *. clearbody iq.
+    assert (H1 : 0 <= ql * d2) by qcnra. set (u := ql * d2) in *. clearbody u. qcnra. }
+  set (wl := qa * d1 / qn n) in *. set (wr := ql * d2 / qn n) in *. clearbody wl wr.
+  apply E_ratio01; [exact Hwl|qclra].
+Qed.
+
+Lemma border_mono : forall x y y' n K ar al, ssorted x -> (2 <= length x)%nat -> (1 <= n)%nat ->
+  (0 <= ar)%Z -> (0 <= al)%Z -> (forall j, nthq j y <= nthq j y') ->
+  border x y n K ar al <= border x y' n K ar al.
+Proof.
+  intros x y y' n K ar al Hs Hl Hn Har Hal H. rewrite !border_conv.
+  destruct ((ar =? 0)%Z && (al =? 0)%Z); [now apply avg_mono|].
+  destruct (rat_range x n K ar al Hs Hl Hn Har Hal) as [R0 R1]. unfold conv.
+  apply mono_mul; try assumption; now apply avg_mono.
+Qed.
+
+Lemma shl_mono : forall n i al ar A z0 z1 A' z0' z1', (0 <= i)%Z -> (i < Z.of_nat n)%Z ->
+  A <= A' -> z0 <= z0' -> z1 <= z1' -> shl n i al ar A z0 z1 <= shl n i al ar A' z0' z1'.
+Proof.
+  intros n i al ar A z0 z1 A' z0' z1' Hi0 Hin HA H0 H1. unfold shl. cbv zeta.
+  destruct (Z.ltb_spec i al) as [E1|E1]; [apply mono_divZ; try assumption; lia|].
+  destruct (Z.leb_spec i (Z.of_nat n - ar)) as [E2|E2]; [exact HA|].
+  apply mono_divZ; try assumption; lia.
+Qed.
+
+Lemma E_g_exp_lin_range : forall pw t, PwOk pw -> 0 <= t -> t <= 1 ->
+  0 <= g_exp_lin pw t /\ g_exp_lin pw t <= 1.
+Proof.
+  intros pw t Hpw H0 H1. unfold g_exp_lin.
+  destruct (pw_range pw Hpw t H0 H1) as [Pa Pb].
+  set (p := pw t) in *. clearbody p. split; qcnra.
+Qed.
+
+Lemma E_g_lin_exp_xy_range : forall pw t, PwOk pw -> 0 <= t -> t <= 1 ->
+  0 <= g_lin_exp_xy pw t /\ g_lin_exp_xy pw t <= 1.
+Proof.
+  intros pw t Hpw H0 H1.
+  assert (H0' : 0 <= 1 - t) by qclra. assert (H1' : 1 - t <= 1) by qclra.
+  destruct (E_g_exp_lin_range pw (1 - t) Hpw H0' H1') as [Fa Fb].
+  assert (E : g_lin_exp_xy pw t = 1 - g_exp_lin pw (1 - t)).
+  { unfold g_lin_exp_xy, g_exp_lin. rewrite Qc_two_eq. ring. }
+  rewrite E. set (f := g_exp_lin pw (1 - t)) in *. clearbody f. split; qclra.
+Qed.
+
+Lemma she_mono : forall pw n i al ar bl br A z0 z1 A' z0' z1', PwOk pw -> (0 <= i)%Z -> (i < Z.of_nat n)%Z ->
+  (0 <= bl)%Z -> (bl <= al)%Z -> (0 <= br)%Z -> (br <= ar)%Z ->
+  A <= A' -> z0 <= z0' -> z1 <= z1' ->
+  she pw n i al ar bl br A z0 z1 <= she pw n i al ar bl br A' z0' z1'.
+Proof.
+  intros pw n i al ar bl br A z0 z1 A' z0' z1' Hpw Hi0 Hin Hbl0 Hbl Hbr0 Hbr HA H0 H1.
+  unfold she. cbv zeta.
+  set (zlb := if (bl =? 0)%Z then z0 else z0 + (A - z0) * Qc_of_Z bl / Qc_of_Z al).
+  set (zlb' := if (bl =? 0)%Z then z0' else z0' + (A' - z0') * Qc_of_Z bl / Qc_of_Z al).
+  set (zrb := if (br =? 0)%Z then z1 else A + (z1 - A) * Qc_of_Z (ar - br) / Qc_of_Z ar).
+  set (zrb' := if (br =? 0)%Z then z1' else A' + (z1' - A') * Qc_of_Z (ar - br) / Qc_of_Z ar).
+  assert (Hzl : zlb <= zlb').
+  { subst zlb zlb'. destruct (bl =? 0)%Z; [exact H0|]. apply mono_divZ; assumption. }
+  assert (Hzr : zrb <= zrb').
+  { subst zrb zrb'. destruct (br =? 0)%Z; [exact H1|]. apply mono_divZ; try assumption; lia. }
+  clearbody zlb zlb' zrb zrb'.
+  destruct (Z.ltb_spec i bl) as [E1|E1]; [apply mono_divZ; try assumption; lia|].
+  destruct (Z.ltb_spec i al) as [E2|E2].
+  { destruct (E_ratioZ01 (i - bl) (al - bl)) as [R0 R1]; [lia|lia|].
+    destruct (E_g_lin_exp_xy_range pw _ Hpw R0 R1) as [G0 G1]. apply mono_mul; assumption. }
+  destruct (Z.ltb_spec i (Z.of_nat n - ar)) as [E3|E3]; [exact HA|].
+  destruct (Z.ltb_spec i (Z.of_nat n - br)) as [E4|E4].
+  { destruct (E_ratioZ01 (i - (Z.of_nat n - ar)) (ar - br)) as [R0 R1]; [lia|lia|].
+    destruct (E_g_exp_lin_range pw _ Hpw R0 R1) as [G0 G1]. apply mono_mul; assumption. }
+  apply mono_divZ; try assumption; lia.
+Qed.
+
+Theorem fixed_monotone_in_values : forall pw x y y' n h bb K i, PwOk pw -> ssorted x -> (2 <= length x)%nat -> (1 <= n)%nat ->
+  length y = length x -> length y' = length x -> fixed_ok n h bb -> (0 <= i)%Z -> (i < Z.of_nat n)%Z ->
+  (forall j, nthq j y <= nthq j y') ->
+  out_linear_fixed x y n h K i <= out_linear_fixed x y' n h K i /\
+  out_exp_fixed pw x y n h bb K i <= out_exp_fixed pw x y' n h bb K i.
+Proof.
+  intros pw x y y' n h bb K i Hpw Hs Hx Hn _ _ (Hh1 & Hh2 & Hb0 & Hb1) Hi0 Hin Hle.
+  unfold out_linear_fixed, out_exp_fixed. rewrite !shape_linear_shl, !shape_exp_she.
+  assert (HA : avg x y K <= avg x y' K) by now apply avg_mono.
+  assert (B0 : border x y n K h h <= border x y' n K h h) by (apply border_mono; try assumption; lia).
+  assert (B1 : border x y n (K + 1) h h <= border x y' n (K + 1) h h) by (apply border_mono; try assumption; lia).
+  split; [apply shl_mono; assumption|apply she_mono; try assumption; lia].
+Qed.
+
+(** ---------- 13. the piecewise-constant strategy is linear ---------- *)
+
+Lemma repeatq_map : forall (f : Qc -> Qc) v n, repeatq (f v) n = map f (repeatq v n).
+Proof. intros f v n. induction n as [|n IH]; [reflexivity|]. cbn [repeatq map]. now rewrite IH. Qed.
+
+Lemma oversample_pc_go_map : forall (f : Qc -> Qc) y n,
+  oversample_pc_go (map f y) n = map f (oversample_pc_go y n).
+Proof.
+  intros f y n. induction y as [|u y IH]; [reflexivity|].
+  destruct y as [|v y]; [reflexivity|].
+  cbn [map] in *. rewrite !oversample_pc_go_cons2, map_app, repeatq_map. f_equal. exact IH.
+Qed.
+
+Lemma repeatq_map2 : forall (f : Qc -> Qc -> Qc) u v n,
+  repeatq (f u v) n = map2 f (repeatq u n) (repeatq v n).
+Proof. intros f u v n. induction n as [|n IH]; [reflexivity|]. cbn [repeatq map2]. now rewrite IH. Qed.
+
+Lemma map2_app_eq : forall (f : Qc -> Qc -> Qc) l1 l1' l2 l2', length l1 = length l1' ->
+  map2 f (l1 ++ l2) (l1' ++ l2') = map2 f l1 l1' ++ map2 f l2 l2'.
+Proof.
+  intros f l1. induction l1 as [|a l1 IH]; intros [|a' l1'] l2 l2' H; cbn [length] in H; try discriminate.
+  - reflexivity.
+  - cbn [app map2]. f_equal. apply IH. lia.
+Qed.
+
+Lemma oversample_pc_go_map2 : forall (f : Qc -> Qc -> Qc) y y' n, length y = length y' ->
+  oversample_pc_go (map2 f y y') n = map2 f (oversample_pc_go y n) (oversample_pc_go y' n).
+Proof.
+  intros f y. induction y as [|u y IH]; intros [|u' y'] n H; cbn [length] in H; try discriminate; [reflexivity|].
+  destruct y as [|v y]; destruct y' as [|v' y']; cbn [length] in H; try discriminate; [reflexivity|].
+  specialize (IH (v' :: y') n). cbn [map2] in *.
+  rewrite !oversample_pc_go_cons2, map2_app_eq by (now rewrite !repeatq_length).
+  rewrite repeatq_map2. f_equal. apply IH. cbn [length]. lia.
+Qed.
+
+Theorem piecewise_constant_linear : forall x y y' n a b, length y = length y' ->
+  snd (rfa_pc x (ymap a b y) n) = ymap a b (snd (rfa_pc x y n)) /\
+  snd (rfa_pc x (yadd y y') n) = yadd (snd (rfa_pc x y n)) (snd (rfa_pc x y' n)).
+Proof.
+  intros x y y' n a b H. unfold rfa_pc. cbn [snd]. unfold oversample_pc, ymap, yadd.
+  destruct (n <? 2)%nat; [split; reflexivity|].
+  split; [apply oversample_pc_go_map|now apply oversample_pc_go_map2].
+Qed.
+
+Print Assumptions grid_x_affine.
+Print Assumptions avg_border_y_affine.
+Print Assumptions shape_y_affine.
+Print Assumptions fixed_y_affine.
+Print Assumptions adaptive_windows_y_affine.
+Print Assumptions adaptive_y_affine.
+Print Assumptions out_x_affine.
+Print Assumptions adaptive_windows_x_affine.
+Print Assumptions locality_fixed.
+Print Assumptions locality_adaptive.
+Print Assumptions fixed_additive.
+Print Assumptions fixed_monotone_in_values.
+Print Assumptions piecewise_constant_linear.
